@@ -29,12 +29,14 @@ ASSUMPTIONS = [
     'classification is observed through `tally up --format json -v` in a fresh simulated process',
     'CSV rule files restricted to patterns whose fault-free migration preserves classification in that very run',
 ]
-RULE = ('scenario = seeded budget x migration command (up --migrate / up on TTY answering y / init / update -y / '
-        'update on TTY) x seams (TTY, peer, cwd); the golden run gives the effect trace; every effect index is then '
-        'swept with crash (cuts none/one/half/midline/midchar/line/minus1/all of the in-flight file), OSError (each '
-        'errno legal for the effect kind) and KeyboardInterrupt.  distinct_nontrivial counts distinct (command '
-        'class, normalised effect descriptor, fault kind, cut/errno class) placements that fired AND left the disk '
-        'different from both the initial and the fully migrated tree.')
+RULE = ('scenario = seeded budget (old / new layout, CRLF or LF settings, comment mentioning merchants_file, pre-existing .bak / merchants.rules / '
+        'tally/) x migration command (up|run --migrate, up on a TTY answering y, init in three forms, update -y, update on a TTY) x seams (TTY, peer, '
+        'cwd, pinned date); the golden run gives the effect trace and the list of files read; then: crash before every effect (cuts none/one/half/'
+        'midline/midchar/line/minus1/all of the in-flight file), one OSError of every errno legal for the effect kind at every effect, '
+        'KeyboardInterrupt at every effect, the disk staying full (ENOSPC) or read-only (EROFS) from every effect on, every path named by the trace '
+        'staying locked (EPERM/EACCES on every effect naming it), EACCES / EIO on every budget file the command read, and the complete prefix; '
+        'thorough adds depth 2.  distinct_nontrivial counts distinct (command class, normalised effect descriptor or path, fault kind, cut/errno '
+        'class) placements that fired AND left the disk different from both the initial and the fully migrated tree.')
 
 ERRNOS = {
     'open': ['EACCES', 'ENOSPC', 'EROFS', 'EMFILE'],
@@ -148,7 +150,8 @@ def gen_scenario(rng, i):
     return {
         'class': cls,
         'world': util.snap_to_json(snap),
-        'cmd': {'argv': argv, 'cwd': cwd, 'tty': tty, 'net': net, 'today': '2025-06-15'},
+        'cmd': {'argv': argv, 'cwd': cwd, 'tty': tty, 'net': net,
+                'today': rng.choice(['2025-06-15', '2024-12-31', '2025-01-01', '2024-02-29', '2026-10-04'])},
         'obs': obs,
     }
 
@@ -624,6 +627,7 @@ def coverage(count, sets, samples, tier):
         'scenarios': count.get('scenarios', 0),
         'fault_cases': count.get('cases', 0),
         'fs_effects': count.get('fs_effects', 0),
+        'sim_processes': count.get('sim_processes', 0),
         'faults_fired': fired,
         'faults_not_fired': count.get('not_fired', 0),
         'distinct_post_fault_states': len(sets.get('post_fault_states', ())),
